@@ -36,7 +36,7 @@ ASSUMPTIONS = [
     "the layout offset is not part of get_affine_map()/all_values() (offset-free convention of the code base); offset is checked "
     "through print/parse here and through its consumers in C05/C11",
     "dynamic entries follow the documented contiguity rule of get_step_ops (largest static step x its bound, then right-to-left, inner-to-outer)",
-    "subview pointer arithmetic is checked for tile-aligned dynamic offsets (the documented precondition)",
+    "subview pointer arithmetic is checked for tile-aligned dynamic offsets (the documented precondition), all dynamic or mixed with static 0 offsets",
 ]
 BOUNDS = {
     "quick": dict(full_menu_total_strides=3, reduced_menu_total_strides=4, bounds=[1, 2, 3, 4], steps=[1, 2, 3, 4, 6, 8, 12, 16, 24]),
@@ -534,13 +534,19 @@ def _subview_space(tier):
         Product([(1, 1)], power(strides, 2), [1, 4], [(0, 0), (1, 0), (1, 2), (3, 1)]),
         Product([(2, 2)], power([(2, 1), (2, 8), (4, 2), (2, 32), (4, 64)], 4), [1, 2], [(0, 0), (1, 0), (1, 1), (2, 3)]),
     ]
+    # mixed static (0) / dynamic offsets: the dynamic operands are fewer than the dimensions, each belongs to its own dimension
+    for static in [(True, False), (False, True)]:
+        parts.append(Product([(1, 1)], power(strides, 2), [1, 4], [(0, 0), (1, 0), (1, 2), (3, 1)], [static]))
+        parts.append(Product([(2, 2)], power([(2, 1), (2, 8), (4, 2), (2, 32), (4, 64)], 4), [1, 2], [(1, 1), (2, 3)], [static]))
     return Concat(*parts)
 
 
-def eval_subview(r, comp, flat, elbytes, tile_idx):
+def eval_subview(r, comp, flat, elbytes, tile_idx, static=()):
     """memref.subview with dynamic, tile-aligned offsets on a TSL memref; extract_aligned_pointer_as_index of the
     subview after convert-memref-to-arith must be base + addr(offset)*elbytes."""
     dims = split(comp, flat)
+    static = tuple(static) or (False,) * len(dims)
+    tile_idx = tuple(0 if st else t for t, st in zip(tile_idx, static))
     # outer bound must allow tile index: make outer bound large enough by multiplying (keep steps)
     dims = [[(max(d[0][0], t + 1), d[0][1])] + list(d[1:]) for d, t in zip(dims, tile_idx)]
     L = mk(dims)
@@ -552,16 +558,16 @@ def eval_subview(r, comp, flat, elbytes, tile_idx):
     mty = f"memref<{'x'.join(map(str, shp))}x{el}, #tsl.tsl<{L}>>"
     sizes = [i for i in inner]
     rty = f"memref<{'x'.join(map(str, sizes))}x{el}, strided<[{', '.join(['?'] * rank)}], offset: ?>>"
-    args = ", ".join(f"%o{i} : index" for i in range(rank))
+    args = ", ".join(f"%o{i} : index" for i in range(rank) if not static[i])
     text = f"""
 func.func @f(%m : {mty}, {args}) -> index {{
-  %sv = memref.subview %m[{', '.join(f'%o{i}' for i in range(rank))}] [{', '.join(map(str, sizes))}] [{', '.join(['1'] * rank)}] : {mty} to {rty}
+  %sv = memref.subview %m[{', '.join('0' if static[i] else f'%o{i}' for i in range(rank))}] [{', '.join(map(str, sizes))}] [{', '.join(['1'] * rank)}] : {mty} to {rty}
   %p = "memref.extract_aligned_pointer_as_index"(%sv) : ({rty}) -> index
   func.return %p : index
 }}
 """
-    key = key_of("subview", (comp, flat, elbytes, tile_idx))
-    case = dict(kind="subview", comp=comp, flat=flat, elbytes=elbytes, tile_idx=tile_idx)
+    key = key_of("subview", (comp, flat, elbytes, tile_idx) + ((static,) if any(static) else ()))
+    case = dict(kind="subview", comp=comp, flat=flat, elbytes=elbytes, tile_idx=tile_idx, static=static)
     try:
         mod = common.compile_text(text, "convert-memref-to-arith")
     except common.Rejected as e:
@@ -577,7 +583,7 @@ func.func @f(%m : {mty}, {args}) -> index {{
     for op in mod.walk():
         if op.name == "func.func":
             f = op
-    term, vals = it.run_func(f, [None] + offs)
+    term, vals = it.run_func(f, [None] + [o for o, st in zip(offs, static) if not st])
     want = BASE + ref.addr(dims, offs) * elbytes
     r.obs = ("subview", str(L), elbytes, tuple(offs), vals[0])
     r.states = 1
@@ -629,5 +635,5 @@ def replay(case):
     elif kind == "lccb":
         eval_lccb(r, _tup(case["comp"]), _tup(case["bounds"]), _tup(case["steps_a"]), _tup(case["steps_b"]), case["elw"])
     elif kind == "subview":
-        eval_subview(r, _tup(case["comp"]), _tup(case["flat"]), case["elbytes"], _tup(case["tile_idx"]))
+        eval_subview(r, _tup(case["comp"]), _tup(case["flat"]), case["elbytes"], _tup(case["tile_idx"]), _tup(case.get("static", ())))
     return r.violations
